@@ -1,6 +1,7 @@
 package props
 
 import (
+	"encoding/hex"
 	"flag"
 	"fmt"
 	"io"
@@ -26,6 +27,8 @@ type C19Case struct {
 	L    *Layout `json:"layout,omitempty"`
 	M    int     `json:"method,omitempty"`
 	S    string  `json:"s,omitempty"`
+	// Hex, when set, is the string under test in hexadecimal (strings that are not valid UTF-8 do not survive JSON)
+	Hex string `json:"hex,omitempty"`
 }
 
 var unitSeconds = map[byte]int64{'s': 1, 'm': 60, 'h': 3600, 'd': 86400, 'w': 7 * 86400, 'y': 365 * 86400}
@@ -276,6 +279,13 @@ func judgeTS(ts uint32) []Finding {
 }
 
 func runC19(c C19Case, ev *Evid) (fs []Finding) {
+	if c.Hex != "" {
+		b, err := hex.DecodeString(c.Hex)
+		if err != nil {
+			panic("bad hex in C19 case")
+		}
+		c.S = string(b)
+	}
 	nontrivial := true
 	cls := []string{"kind=" + c.Kind}
 	switch c.Kind {
@@ -410,6 +420,9 @@ var durBoundaryNumerals = []string{"0", "1", "2", "59", "60", "61", "2147483647"
 func genDurString(t *rapid.T) string {
 	switch rapid.IntRange(0, 5).Draw(t, "durStrKind") {
 	case 0:
+		if rapid.IntRange(0, 3).Draw(t, "anyUnitByte") == 0 {
+			return rapid.SampledFrom(durBoundaryNumerals).Draw(t, "num") + string([]byte{byte(rapid.IntRange(33, 126).Draw(t, "unitByte"))})
+		}
 		return rapid.SampledFrom(durBoundaryNumerals).Draw(t, "num") + rapid.SampledFrom([]string{"s", "m", "h", "d", "w", "y", "", "x", "S", "ss", "sm", "ms", " s", "s "}).Draw(t, "unit")
 	case 1:
 		return rapid.StringMatching(`[0-9smhdwy:,+\-]{0,7}`).Draw(t, "alpha")
@@ -685,6 +698,15 @@ func TestC19(t *testing.T) {
 			}
 			for m := -1; m <= 10; m++ {
 				out = append(out, C19Case{Kind: "method", M: m})
+			}
+			// every byte value in the unit position (an unknown unit is an error, whatever the byte)
+			for b := 0; b < 256; b++ {
+				if strings.IndexByte("0123456789", byte(b)) >= 0 {
+					continue
+				}
+				for _, str := range []string{"1" + string([]byte{byte(b)}), "120" + string([]byte{byte(b)}), "1" + string([]byte{byte(b)}) + ":60s", "1s:60" + string([]byte{byte(b)}), "1s:2s,2s:8" + string([]byte{byte(b)})} {
+					out = append(out, C19Case{Kind: "durstr", Hex: hex.EncodeToString([]byte(str))}, C19Case{Kind: "liststr", Hex: hex.EncodeToString([]byte(str))})
+				}
 			}
 			for _, s := range []string{"", "s", "1", "1ss", "1sm", "+1s", "-1s", "1s:", ":1s", "1s:1s,", ",1s:1s", "1s:3s,2s:3s", "2s:3s", "1s:20y,1m:40y", "1s:2s,1s:4s", "1s:4s,2s:4s", "1s:1s,2s:4s", "1s:2s,3s:6s", "2s:4s,3s:9s", "0s:0s", "1s:0s", "0s:1s"} {
 				out = append(out, C19Case{Kind: "liststr", S: s}, C19Case{Kind: "durstr", S: s})
